@@ -576,7 +576,7 @@ def generated_path_arrays(expr_str, values):
 # MANIFEST-BEGIN
 MANIFEST = {
     'technique': 'differential monitor: both evaluation paths of PyRates (eval_node on the parsed expression, generated function of a one-equation operator) vs an independent AST evaluator (float64 + mpmath), over random expression trees printed in several spellings',
-    'level_text': 'Thousands of random expression trees over the documented grammar (operators, integer powers, nested calls of 14 functions, pi/E, literals in several spellings, hostile identifiers, index helpers on vectors and matrices) are printed in three spellings of the same tree and evaluated through ExpressionParser/eval_node and through the generated code of a one-equation operator in both derivative notations; every value must equal the independent AST evaluation within 1e-9 (ill-conditioned trees are discarded using a 40-digit evaluation). For half of the expressions one variable is additionally made an operator input driven by two other operators, so that PyRates rewrites the variable inside the equation string; the value must not change. Index helpers are also evaluated inside generated code (scalar-valued index expressions), names that resemble derived labels are used next to nodes for which PyRates really derives such labels, and models with several literal-only equations (equal, nearly equal, different values) must return exactly the numbers written. Expressions contain sums that occur once negated and once more inside another factor or argument. Expressions also contain the same quantity spelled twice so that the canonical forms differ only in the type of a coefficient ((2.0*v)**2 and (v + v)**2) as factors or arguments of one operation. Held on observed expressions only.',
+    'level_text': 'Thousands of random expression trees over the documented grammar (operators, integer powers, nested calls of 14 functions, pi/E, literals in several spellings, hostile identifiers, index helpers on vectors and matrices) are printed in three spellings of the same tree and evaluated through ExpressionParser/eval_node and through the generated code of a one-equation operator in both derivative notations; every value must equal the independent AST evaluation within 1e-9 (ill-conditioned trees are discarded using a 40-digit evaluation). For half of the expressions one variable is additionally made an operator input driven by two other operators, so that PyRates rewrites the variable inside the equation string; the value must not change. Index helpers are also evaluated inside generated code (scalar-valued index expressions), names that resemble derived labels are used next to nodes for which PyRates really derives such labels, and models with several literal-only equations (equal, nearly equal, different values) must return exactly the numbers written. Expressions contain sums that occur once negated and once more inside another factor or argument. Expressions also contain the same quantity spelled twice so that the canonical forms differ only in the type of a coefficient ((2.0*v)**2 and (v + v)**2) as factors or arguments of one operation. A rational_literals family sends integer quotients (as exponent, factor, stand-alone term, inside a call, as summand of an exponent) through the generated code of the Fortran and the default backend. Held on observed expressions only.',
     'level_note': 'Trusted: vp/expr.py evaluator and printers (the three spellings are produced from one tree by precedence-aware printing). Index helpers are applied to variables, not to compound sub-expressions (DESIGN 4a).',
 }
 # MANIFEST-END
